@@ -126,7 +126,7 @@ def world_job(job):
         for i, sc in enumerate(scenarios):
             hist = mod.execute(w, sc)
             bad = _bad_returns()
-            viol, probes = mod.judge(spec, sc, hist)
+            viol, probes = _judge(mod, spec, sc, hist)
             viol = bad + list(viol)
             res["runs"] += 1
             d = R.digest(hist)
@@ -194,6 +194,17 @@ def world_job(job):
     return res
 
 
+def _judge(mod, spec, sc, hist):
+    """Bytes that the client put on the wire, returned or yielded and that do not even PARSE as the message type the
+    input descriptors prescribe are the library's failure (a violation), not a crash of the oracle."""
+    from google.protobuf.message import DecodeError
+    try:
+        return mod.judge(spec, sc, hist)
+    except DecodeError as e:
+        return [{"rule": "undecodable", "op": None, "msg": f"bytes sent, returned or yielded by the client do not parse as the type the "
+                 f"input descriptors prescribe: {str(e)[:200]}"}], {}
+
+
 def _bad_returns():
     from . import engine
     bad = engine.take_bad_returns()
@@ -253,7 +264,7 @@ def replay_job(job):
             _bad_returns()
         hist = mod.execute(w, job["scenario"])
         bad = _bad_returns()
-        viol, _ = mod.judge(job["spec"], job["scenario"], hist)
+        viol, _ = _judge(mod, job["spec"], job["scenario"], hist)
         viol = bad + list(viol)
         return {"violations": viol, "digest": R.digest(hist), "history": hist}
     finally:
